@@ -181,12 +181,12 @@ class C11(Prop):
                 else:
                     # no marker: the function itself must wait for the reader (full path only)
                     yield mk(cs(3), refsrv=1, stderr=s, chunk=chunk, wait=b"")
-        for _ in range(500 if quick else 20000):
+        for _ in range(1500 if quick else 8000):
             ls = [rng.choice(LINE_SHAPES) for _ in range(rng.randint(0, 8))]
             s = stream(ls, rng.choice([b"\n", b"\r\n"]), rng.random() < 0.5)
             yield mk(cs(rng.randint(0, 4)), refsrv=1, stderr=s, chunk=rng.choice([1, 2, 3, 5, 7, 64, 4096]),
                      wait=rng.choice([None, b""]), dead=rng.choice([-1, -1, 1, 2]))
-        for _ in range(300 if quick else 10000):
+        for _ in range(600 if quick else 4000):
             s = bytes(rng.choice(b"S/ab: \n\r\tTc:  x") for _ in range(rng.randint(0, 40)))
             yield mk(cs(3), refsrv=1, stderr=s, chunk=rng.choice([1, 3, 4096]), wait=rng.choice([None, b""]))
         # names that contain ": ", that are prefixes of each other, empty
@@ -195,7 +195,7 @@ class C11(Prop):
             yield mk(cs(6, names=odd), refsrv=1, stderr=s)
 
         # (d) random larger batches
-        for _ in range(1500 if quick else 60000):
+        for _ in range(4000 if quick else 25000):
             n = rng.randint(5, 12)
             names = rng.sample(NAMES, n)
             if rng.random() < 0.1:
